@@ -54,6 +54,13 @@ CHECKS = {
         dict(prop="C11", harness="api_pbt", quick=dict(count=1600, workers=8), thorough=dict(count=50000, workers=16),
              essential=_ALL_SCHEMAS + ["set_relative_path", "remove-with-subtree", "move-non-last-sibling", "remove-member-track",
                                        "track-with-performance-data"])]),
+    "C14": dict(level="fault_enumeration", exhaustive_note="every fault position k of each generated (state, operation) pair", parts=[
+        dict(prop="REG", harness="api_pbt", quick=dict(count=0, workers=1), thorough=dict(count=0, workers=1)),  # regression scenarios
+        dict(prop="C14", harness="api_pbt", quick=dict(count=2400, workers=8), thorough=dict(count=80000, workers=16),
+             essential=_ALL_SCHEMAS + ["W>=2", "k>=2"] + [f + m for f in ("1.x:", "2.x:") for m in
+                 ["create_track", "update", "remove_track"] + ["set_" + x for x in _SETTERS] +
+                 ["create_root_crate", "create_sub_crate", "create_root_crate_after", "create_sub_crate_after", "set_name", "set_parent",
+                  "add_track(track)", "add_track(id)", "crate::remove_track", "clear_tracks", "remove_crate"]])]),
     "C15": dict(level="exploration", parts=[
         dict(prop="REG", harness="api_pbt", quick=dict(count=0, workers=1), thorough=dict(count=0, workers=1)),  # regression scenarios
         dict(prop="C15", harness="api_pbt", quick=dict(count=6000, workers=8), thorough=dict(count=250000, workers=16),
@@ -151,6 +158,13 @@ RULES = {
            "verify() passes, every stored blob decodes, 1.x Crate.path / CrateParentList / CrateHierarchy all describe the model forest, 2.x "
            "nextListId / nextEntityId chains are single acyclic lists with one tail per parent / list, file name / extension (fileType) / origin "
            "ids agree with the path and the database uuid. Non-trivial = a step changed a crate with descendants or a track path.",
+    "C14": "Case = schema x one of the 40 public mutating operations (create_track, update, remove_track, the 26 setters, the four crate "
+           "creates, set_name, set_parent, both add_track overloads, crate::remove_track, clear_tracks, remove_crate) x a prior state (two "
+           "tracks with performance data, crates A > C and B, three memberships, plus 0..4 generated operations) x EVERY fault position: a dry "
+           "run counts the W non-read-only statements (plus COMMIT) the operation steps through the sqlite3_step shim; for each k in 1..W the "
+           "state is rebuilt, the k-th such statement returns SQLITE_IOERR without executing, and the call must throw, Obs (canonical public-"
+           "API dump) must equal Obs before the call, no transaction may stay open, and the same operation must then succeed. Non-trivial = "
+           "operations with W >= 2; distinct = distinct (schema, state, operation, arguments).",
     "C15": "Case = schema + optional prelude + up to 23 operations drawn from every public operation with hostile arguments: slot indices "
            "-2..10 and INT_MIN/MAX, 0..12 slot vectors, labels up to 300 bytes, NaN/inf/1e300/negative sample rates and bpm, unsorted grids "
            "with INT_MIN/INT_MAX indices, any 64-bit duration, absent/extension-less paths, ids of nonexistent tracks/crates (incl. INT64 "
@@ -210,6 +224,8 @@ ASSUMPTIONS = {
     "C09": ["a set_parent within the same parent may leave the crate in place or move it to the end"],
     "C10": ["the library's own random uuid and timestamps are not part of the comparison except that they must be stable across the reopen"],
     "C11": ["the model forest (C07's model) is the reference for the redundant crate encodings"],
+    "C14": ["fault model: a statement fails without executing (SQLITE_IOERR); power loss / torn pages are outside the property",
+            "BEGIN and ROLLBACK are never failed; COMMIT is"],
     "C15": ["removed handles are used only as the class comments permit", "allocations above 256 MiB become std::bad_alloc"],
     "C16": ["file digests are FNV-1a over the whole file"],
     "C02": ["'The Engine format' is the layout documented at the pinned commit and frozen in harness/refcodec (DESIGN appendix B); no "
@@ -267,6 +283,10 @@ MANIFEST_TEXT = {
                 technique='property-based testing with an independent reader (own SQLite connection + refcodec) as oracle after every step',
                 text='Independent structural reading of the stored files after every operation of generated histories.',
                 note="Trusts SQLite's integrity/foreign-key checks and refcodec."),
+    "C14": dict(engine='api_pbt', design_ref='DESIGN.md 6/C14',
+                technique='property-based fault injection: generated (state, operation) pairs x exhaustive SQL-statement fault positions via a sqlite3_step shim',
+                text='For generated states and every public mutator, every statement the call executes is failed in turn; the call must throw, leave the observable state unchanged and the library usable.',
+                note='Statement-level faults only; the shim relies on sqlite_modern_cpp having a single sqlite3_step call site.'),
     "C15": dict(engine='api_pbt', design_ref='DESIGN.md 6/C15',
                 technique='property-based robustness testing (hostile generated arguments) under ASan+UBSan+libstdc++ assertions with a watchdog',
                 text='Hostile-argument histories over the whole public API; any sanitizer report, assertion, non-std exception or hang is a violation.',
